@@ -366,10 +366,12 @@ func (f *Func) reachTarget(
 			}
 		}
 
-		// If we're skipping because we have this value already, then
-		// note that we're using this input in the input set.
+		// If we're skipping because we have this value already there is
+		// nothing to resolve. Note that this is not recorded in the input
+		// set: a value we already have was either recorded when it was
+		// chosen as an input or was produced along the way, and in the
+		// latter case it is not an input of the overall call.
 		if skip {
-			state.InputSet[graph.VertexID(out)] = out
 			continue
 		}
 
